@@ -1811,6 +1811,12 @@ class Evaluator(Run):
         cover = is_for and self.feasible(z3.And(idx >= 1, idx < it.n))
         for lbl, src in inv_items:
             self.assume(self.truthy(self.spec_eval_in_frame(src, frame, extra)))
+        if not is_for and inv_items:
+            # vacuity guard for while loops: the assumed invariant must be satisfiable at all on this path
+            probe = z3.Bool(fresh_name("wcover"))
+            if not self.feasible(probe):
+                ctx.add_obligation(self, "cover", "%s.invariant-is-satisfiable" % key, z3.BoolVal(False),
+                                   clause="the invariant of %s contradicts the path that reaches the loop (a vacuous proof)" % key, line=node.lineno)
         if cover and not self.feasible(z3.And(idx >= 1, idx < it.n)):
             # vacuity guard: the assumed invariant must not rule out every iteration after the first
             ctx.add_obligation(self, "cover", "%s.reaches-a-second-iteration" % key, z3.BoolVal(False),
